@@ -98,6 +98,17 @@ impl Reader {
         block_check: BlockCheck,
         in_memory: bool,
     ) -> Result<(Arc<dyn Source>, Region)> {
+        // A truncated or damaged file may declare positions and sizes beyond what is really there.
+        let end = offset
+            .into_u64()
+            .checked_add(size.into_u64())
+            .and_then(|end| end.checked_add(block_check.size() as u64));
+        if !matches!(end, Some(end) if end <= self.region.size().into_u64()) {
+            return Err(format_error!(format!(
+                "Out of bounds: cannot cut {size} bytes at offset {offset} in a reader of {} bytes",
+                self.region.size()
+            )));
+        }
         let region = self.region.cut_rel(offset, size);
         Arc::clone(&self.source).cut(region, block_check, in_memory)
     }
